@@ -105,6 +105,9 @@ func baseChecks(prop string, ex *vsched.Exec, allowDeadlock bool) []vsched.Viola
 		}
 		vs = append(vs, vsched.Violation{Sig: prop + " nontermination", Msg: "step horizon exceeded: " + ex.EndMsg})
 	}
+	if os.Getenv("VERIF_DEBUG_LONG") != "" && ex.Steps > 3000 {
+		vs = append(vs, vsched.Violation{Sig: "DBG long", Msg: fmt.Sprint(ex.Steps)})
+	}
 	if os.Getenv("VERIF_DEBUG_THREADS") != "" && len(ex.Threads()) > 15 {
 		vs = append(vs, vsched.Violation{Sig: "DBG many-threads", Msg: fmt.Sprint(len(ex.Threads()))})
 	}
